@@ -1291,9 +1291,6 @@ pub fn tag_panic(case: &Case, file: &str, msg: &str) -> String {
     if kind == "assert" && file.ends_with("domain/sparse_set.rs") && msg.contains("is_empty") && has_empty_decl(case) {
         return "empty-domain-view-panic".into();
     }
-    if msg.contains("same arity") && file.ends_with("props/table.rs") && has_bad_table_row(case) {
-        return "table-row-arity-panic".into();
-    }
     if kind == "index" && file.ends_with("props/linear.rs") && has_reif_lin_mismatch(case) {
         return "lin-reif-length-unchecked".into();
     }
@@ -2288,7 +2285,6 @@ fn v_tag(v: &V, res: &str) -> &'static str {
     match v {
         V::BoundsEq { lo, hi } | V::BoundsUse { lo, hi } if lo > hi && panic && res.contains("sparse_set.rs") && res.ends_with("assert") => "empty-domain-view-panic",
         V::LinLen { nc, nv, reif: true, .. } if nc != nv => "lin-reif-length-unchecked",
-        V::TableArity { nv, rowlen } if nv != rowlen && panic && res.contains("table.rs") => "table-row-arity-panic",
         V::Mem { first: true, post: true, .. } if panic && res.contains("views.rs") && res.ends_with("index") => "memory-limit-dummy-varid-panic",
         _ => "-",
     }
